@@ -309,12 +309,19 @@ type verdict struct {
 func (v *verdict) bad(sig, what string, trips ...int) {
 	v.Findings = append(v.Findings, finding{Sig: sig, What: what, TripIdx: trips})
 }
-func (v *verdict) class(c string)          { v.Classes[c]++ }
-func (v *verdict) count(c string, n int)   { v.Counters[c] += n }
-func faultsOf(ts []*Trip) (s []string)     { for _, t := range ts { s = append(s, t.Fault.Sig()) }; return }
-func lastTrip(ts []*Trip) *Trip            { return ts[len(ts)-1] }
-func accepted(c CallRec) bool              { return c.Err == nil && c.Panic == "" }
-func errMatches(e *ErrRec, r *refErr) bool { return e != nil && e.GoType == "*vgirpc.RpcError" && e.RPCType == r.Type && e.Message == r.Message && e.Kind == r.Kind }
+func (v *verdict) class(c string)        { v.Classes[c]++ }
+func (v *verdict) count(c string, n int) { v.Counters[c] += n }
+func faultsOf(ts []*Trip) (s []string) {
+	for _, t := range ts {
+		s = append(s, t.Fault.Sig())
+	}
+	return
+}
+func lastTrip(ts []*Trip) *Trip { return ts[len(ts)-1] }
+func accepted(c CallRec) bool   { return c.Err == nil && c.Panic == "" }
+func errMatches(e *ErrRec, r *refErr) bool {
+	return e != nil && e.GoType == "*vgirpc.RpcError" && e.RPCType == r.Type && e.Message == r.Message && e.Kind == r.Kind
+}
 
 // judge evaluates one history's record against the property.
 func judge(h *History, rec *Record) *verdict {
@@ -377,15 +384,15 @@ func judge(h *History, rec *Record) *verdict {
 	}
 
 	// ---- per call
-	dead := ""     // exchange: why the stream must refuse further turns ("" = alive)
+	dead := "" // exchange: why the stream must refuse further turns ("" = alive)
 	closed := false
 	cancelled := false
 	tainted := false // a content fault was accepted: script ground truth no longer applies
 	var lastCursor string
 	haveCursor := false
-	var queue []refBatch     // producer: batches an accepted response holds that Next has not handed out yet
-	var queueErr *refErr     // producer: exception that follows the queued batches
-	queueFinished := false   // producer: the last accepted response carried no cursor
+	var queue []refBatch   // producer: batches an accepted response holds that Next has not handed out yet
+	var queueErr *refErr   // producer: exception that follows the queued batches
+	queueFinished := false // producer: the last accepted response carried no cursor
 	streamOpen := false
 	sigParts := []string{h.Shape}
 
@@ -502,7 +509,7 @@ func judge(h *History, rec *Record) *verdict {
 					if c.Batch.CanonPanic != "" {
 						v.class("returned-batch-unreadable")
 					} else if d := sameBatch(refBatch{c.Batch.Canon, c.Batch.Meta}, id.Data[0]); d != "" {
-						v.bad("exchange:returned-batch-differs-from-response:"+t.Fault.Sig(), d, t.Idx)
+						v.bad("exchange:returned-batch-differs-from-response", d, t.Idx)
 					} else {
 						v.class("exchange.batch-equals-response")
 					}
